@@ -59,7 +59,7 @@ def IR.canRemove (ir : IR) (blk : Block) (toProxy : Bool) (prev next : Option Na
   if !(ir.refsTo blk.id).isEmpty && prev.isNone && next.isNone && !toProxy then false
   else if !cfi.isEmpty && !ir.isCodeBlockId prev && !ir.isCodeBlockId next then false
   else if blk.isCode && !((ir.inEdges blk.id).all Edge.isFall) && !ir.isCodeBlockId next && !toProxy then false
-  else if (ir.entry == some blk.id || ir.aux.elfFini == some blk.id) && !ir.isCodeBlockId next && !toProxy then false
+  else if (ir.entry == some blk.id || ir.aux.elfInit == some blk.id || ir.aux.elfFini == some blk.id) && !ir.isCodeBlockId next && !toProxy then false
   else true
 
 /-- where the references of a removed block go: (referent, at_end) -/
